@@ -292,8 +292,10 @@ func genExhaustiveEnc(c *drv.Ctx, thorough bool) {
 // ---- (b) exhaustive small scope: syntax (parameters, OWS, q spelling) ------------------
 
 func genSyntax(c *drv.Ctx, thorough bool) {
+	// parameter values need not be tokens: everything up to the next ';' or ',' belongs to the parameter
 	pbs := [][]Param{nil, {{K: "level", V: "1"}}, {{K: "seq", V: "0"}}, {{K: "charset", V: "utf-8", Quoted: true}},
-		{{K: "level", V: "1"}, {K: "v", V: "2"}}}
+		{{K: "level", V: "1"}, {K: "v", V: "2"}}, {{K: "p", V: "1/2"}}, {{K: "profile", V: "http://h/p?x=1#f"}},
+		{{K: "to", V: "a@b"}, {K: "r", V: "[1]{2}(3)<4>"}}, {{K: "n", V: "caf\xc3\xa9\xff"}}}
 	type qopt struct {
 		has  bool
 		q    Q
@@ -302,7 +304,7 @@ func genSyntax(c *drv.Ctx, thorough bool) {
 	}
 	qs := []qopt{{false, q(1), true, false}, {true, q(0, 5), true, false}, {true, q(0, 5), false, false}, {true, q(0), true, false},
 		{true, q(0), false, false}, {true, q(1), true, true}, {true, q(0, 2, 5, 0), true, false}}
-	pas := [][]Param{nil, {{K: "ext", V: "1"}}, {{K: "e", V: "x", Quoted: true}, {K: "f", V: "2"}}}
+	pas := [][]Param{nil, {{K: "ext", V: "1"}}, {{K: "e", V: "x", Quoted: true}, {K: "f", V: "2"}}, {{K: "ext", V: "1/2:3@4=5?6#7"}}}
 	sps := [][]int{nil, {1}, {3}, {1, 0}, {0, 1}, {2, 4}}
 	seconds := [][]Range{nil, {rng("a", "y")}, {withQ(rng("a", "y"), q(0, 9))}, {withQ(rng("a", "*"), q(0, 3)), rng("b", "x")}}
 	olists := [][]Offer{{{T: "a", S: "x"}, {T: "a", S: "y"}}, {{T: "a", S: "y"}, {T: "a", S: "x"}}, {{T: "b", S: "x"}, {T: "a", S: "y"}, {T: "a", S: "x"}}}
@@ -342,7 +344,7 @@ var (
 	subsLower  = []string{"x", "y", "plain", "json", "vnd.cia.v1+json", "html"}
 	pbNames    = []string{"level", "charset", "version", "v", "seq", "profile"}
 	paNames    = []string{"ext", "e", "level", "freq"}
-	pValues    = []string{"1", "utf-8", "0.0.4", "x", "q"}
+	pValues    = []string{"1", "utf-8", "0.0.4", "x", "q", "1/2", "http://h/p", "a@b", "k=v", "x?y#z", "[1]", "{a}", "(c)", "<t>", "a:b", "caf\xc3\xa9", "\xff\x80", "a/b/*"}
 	offParams  = []string{"charset=utf-8", "c=1", "version=2"}
 	// contents of quoted-string parameter values (written between double quotes as they are)
 	quotedValues = []string{"x\\\"y", "a\\\\b", "x y", "a=b", "\\x", "", "urn:x"}
